@@ -49,7 +49,8 @@ def suites(wt):
             continue
         ok = False
         for attempt in range(4 if "suite-ev" in t else 1):
-            rc, out = sh("timeout 180 build/janet test/%s" % t, cwd=wt, timeout=200)
+            env = dict(os.environ, JANET_TEST_PORT=str(20000 + os.getpid() % 20000))
+            rc, out = sh("timeout 180 build/janet test/%s" % t, cwd=wt, timeout=200, env=env)
             if rc == 0:
                 ok = True
                 break
